@@ -49,6 +49,7 @@ Definition emit_eqb (x y : emit) : bool :=
   | EFailed a, EFailed b => N.eqb a b
   | EFinished a, EFinished b => N.eqb a b
   | ERestart f s v, ERestart f' s' v' => N.eqb f f' && N.eqb s s' && Z.eqb v v'
+  | EStarted a, EStarted b => N.eqb a b
   | _, _ => false
   end.
 
@@ -62,7 +63,8 @@ Inductive op :=
 | OAbortNR (f : uid) (d : bool)      (* _abort_flow(..., restart_flow=False) *)
 | OFinish (f : uid) (d : bool)
 | OEndScope (f : uid) (name : N)
-| OEvent (k : akind) (a : uid).
+| OEvent (k : akind) (a : uid)
+| OStartLink (x src : uid) (a : Z).        (* _start_flow *)
 
 (* exceptions of the implementation: KeyError, ValueError (list.remove), ColangRuntimeError (scope) *)
 Inductive exn := XKey | XValue | XScope.
@@ -86,6 +88,7 @@ Definition run_op (s : st) (o : op) : res st :=
   | OFinish f d => finish fuel s f d
   | OEndScope f n => end_scope scope_release_shared fuel s f n
   | OEvent k a => Ok (action_event k a s)
+  | OStartLink x src a => start_link s x src a
   end.
 
 (* the pre-snapshot has out = []; the implementation side lists what was emitted during the call *)
@@ -93,6 +96,16 @@ Definition check_case (c : st * op * (st + exn)) : bool :=
   let '(s, o, expected) := c in
   match run_op s o, expected with
   | Ok s', inl e => st_eqb s' e
+  | Err er, inr x => match exn_of er with Some x' => exn_eqb x x' | None => false end
+  | _, _ => false
+  end.
+
+(* START_FLOW branch: (pre, event, uids whose parameters match, expected post, expected
+   effective sender of a created instance) *)
+Definition check_start (c : st * sfev * list uid * (st * option uid + exn)) : bool :=
+  let '(s, e, matching, expected) := c in
+  match start_proc (fun u => existsb (N.eqb u) matching) s e, expected with
+  | Ok (s', o), inl (es, eo) => st_eqb s' es && option_eqb N.eqb o eo
   | Err er, inr x => match exn_of er with Some x' => exn_eqb x x' | None => false end
   | _, _ => false
   end.
